@@ -175,6 +175,22 @@ class Analysis:
             return res
         return run
 
+    def method_cases(self, tname, body, env=None):
+        """run `body` (a method taking self: &mut/& T first) from every partition of T's invariant.
+        returns [{key, obj0, st, obj, ret, args, root}] -- st is the post state (it still knows the entry symbols)"""
+        inv = self.invariant(tname)
+        out = []
+        for key, S in sorted(inv.parts.items(), key=lambda kv: str(kv[0])):
+            st = self.ip.new_state()
+            obj0 = self.import_partition(st, S)
+            root = self.ip.new_oid("self")
+            st.mem[root] = obj0
+            a0ty = body["locals"][1]["ty"]
+            self_arg = VRef(root, (), a0ty.get("mut", False)) if a0ty.get("k") == "ref" else obj0
+            for (s2, rv, args) in self.run_fn(body, env, st0=st, first_arg=self_arg):
+                out.append({"key": key, "obj0": obj0, "st": s2, "obj": s2.mem.get(root), "ret": rv, "args": args, "root": root})
+        return out
+
     # ------------------------------------------------------------------ argument construction
     def contains_ts(self, ty, depth=0):
         key = ty_str(ty)
